@@ -43,6 +43,11 @@ type DecisionOpts struct {
 	// ends when a back edge returns to the header (outcome "next(state0=..,state1=..)"), when the
 	// loop is left ("exit") or at an Outcome instruction.
 	IterateAt *ssa.BasicBlock
+	// ExitOutcome (iteration mode): a path that leaves the analysed loop ends with this outcome
+	// instead of being followed through the code behind the loop.
+	ExitOutcome string
+	// NoSkip: also walk through expanded helper calls that have no result, no event and no outcome.
+	NoSkip bool
 }
 
 // EnumerateDecisions walks the CFG of fn. Every If contributes a literal over a canonical
@@ -118,6 +123,38 @@ func EnumerateDecisions(p *Program, fn *ssa.Function, opts DecisionOpts) (paths 
 		return nil, false
 	}
 
+	// expanded calls to helpers without results that contain nothing the caller of this
+	// enumeration is interested in (no event, no outcome) are stepped over: control re-converges
+	// at the continuation, so their branch conditions cannot decide anything outside.
+	skipTo := map[*ssa.BasicBlock]*ssa.BasicBlock{}
+	if !opts.NoSkip {
+		plain := NewCanon(p)
+		for _, rg := range p.InlineRegions(fn) {
+			if rg.Results != 0 || len(rg.Cont.Preds) == 0 {
+				continue
+			}
+			relevant := false
+			for b := range rg.Blocks {
+				if opts.IterateAt != nil && b == opts.IterateAt {
+					relevant = true
+				}
+				for _, in := range b.Instrs {
+					if opts.Event != nil {
+						if _, ok := opts.Event(in, plain); ok {
+							relevant = true
+						}
+					}
+					if _, ok := opts.Outcome(in, plain); ok {
+						relevant = true
+					}
+				}
+			}
+			if !relevant {
+				skipTo[rg.Entry] = rg.Cont
+			}
+		}
+	}
+
 	// loops are numbered by the position of their header in the function
 	loopNo := map[*ssa.BasicBlock]int{}
 	for _, b := range fn.Blocks {
@@ -145,6 +182,7 @@ func EnumerateDecisions(p *Program, fn *ssa.Function, opts DecisionOpts) (paths 
 		eqTrue   map[string]string
 		events   []string
 		allocVal map[*ssa.Alloc]ssa.Value
+		version  map[string]int // atoms invalidated by a store to a place they mention
 	}
 	clone := func(s *state) *state {
 		n := &state{assign: map[string]bool{}, visits: map[*ssa.BasicBlock]int{}, phiEdge: map[*ssa.Phi]ssa.Value{}, backUsed: map[edge]bool{}, eqTrue: map[string]string{}}
@@ -152,6 +190,10 @@ func EnumerateDecisions(p *Program, fn *ssa.Function, opts DecisionOpts) (paths 
 			n.eqTrue[k] = v
 		}
 		n.events = append([]string{}, s.events...)
+		n.version = map[string]int{}
+		for k, v := range s.version {
+			n.version[k] = v
+		}
 		n.allocVal = map[*ssa.Alloc]ssa.Value{}
 		for k, v := range s.allocVal {
 			n.allocVal[k] = v
@@ -189,6 +231,7 @@ func EnumerateDecisions(p *Program, fn *ssa.Function, opts DecisionOpts) (paths 
 		if len(st.events) > 0 {
 			outcome = strings.Join(st.events, "; ") + " => " + outcome
 		}
+		outcome = SubstDecidedStates(outcome, st.lits)
 		paths = append(paths, DecisionPath{Lits: append([]Lit{}, st.lits...), Outcome: outcome, Pos: pos})
 	}
 	var overflow bool
@@ -221,6 +264,18 @@ func EnumerateDecisions(p *Program, fn *ssa.Function, opts DecisionOpts) (paths 
 				parts = append(parts, fmt.Sprintf("state%d=%s", i, v))
 			}
 			emit(st, "next("+strings.Join(parts, ",")+")", p.Pos(from.Instrs[len(from.Instrs)-1].Pos()))
+			return
+		}
+		if to, ok := skipTo[b]; ok {
+			walk(to, b, st)
+			return
+		}
+		if opts.IterateAt != nil && opts.ExitOutcome != "" && !loopOf[opts.IterateAt][b] {
+			pos := "-"
+			if from != nil && len(from.Instrs) > 0 {
+				pos = p.Pos(from.Instrs[len(from.Instrs)-1].Pos())
+			}
+			emit(st, opts.ExitOutcome, pos)
 			return
 		}
 		st.visits[b]++
@@ -258,6 +313,19 @@ func EnumerateDecisions(p *Program, fn *ssa.Function, opts DecisionOpts) (paths 
 		for _, in := range b.Instrs {
 			// results spilled to locals because of a defer: remember the last store per local
 			if sto, ok := in.(*ssa.Store); ok {
+				if _, isLocal := sto.Addr.(*ssa.Alloc); !isLocal {
+					// a store to a field/element/global: conditions decided earlier that read
+					// this place are no longer decided
+					place := strings.TrimPrefix(canon.Of(sto.Addr), "&")
+					if place != "" {
+						for a := range st.assign {
+							if strings.Contains(a, place) {
+								delete(st.assign, a)
+								st.version[strings.TrimRight(a, "′")]++
+							}
+						}
+					}
+				}
 				if al, ok := sto.Addr.(*ssa.Alloc); ok {
 					if _, isStruct := al.Type().Underlying().(*types.Pointer).Elem().Underlying().(*types.Struct); !isStruct {
 						st.allocVal[al] = sto.Val
@@ -297,6 +365,9 @@ func EnumerateDecisions(p *Program, fn *ssa.Function, opts DecisionOpts) (paths 
 				return
 			}
 			atom, valWhenTrue := canon.CondAtom(last.Cond)
+			if v := st.version[atom]; v > 0 {
+				atom += strings.Repeat("′", v)
+			}
 			body, lc := isLoopControl(b)
 			if lc && opts.IterateAt != nil && loopHeaderOf(b) == opts.IterateAt {
 				// the analysed loop: entering the body is unconditional in iteration mode,
@@ -389,11 +460,47 @@ func EnumerateDecisions(p *Program, fn *ssa.Function, opts DecisionOpts) (paths 
 	if opts.IterateAt != nil {
 		startBlock = opts.IterateAt
 	}
-	walk(startBlock, nil, &state{assign: map[string]bool{}, visits: map[*ssa.BasicBlock]int{}, phiEdge: map[*ssa.Phi]ssa.Value{}, backUsed: map[edge]bool{}, eqTrue: map[string]string{}, allocVal: map[*ssa.Alloc]ssa.Value{}})
+	walk(startBlock, nil, &state{version: map[string]int{}, assign: map[string]bool{}, visits: map[*ssa.BasicBlock]int{}, phiEdge: map[*ssa.Phi]ssa.Value{}, backUsed: map[edge]bool{}, eqTrue: map[string]string{}, allocVal: map[*ssa.Alloc]ssa.Value{}})
 	if overflow {
 		return paths, atoms, fmt.Errorf("more than %d decision paths in %s", opts.MaxPaths, fn)
 	}
 	return paths, atoms, nil
+}
+
+// SubstDecidedStates replaces the loop-state variables (state0, state1, ...) whose value was
+// decided on the path by that value, except where they are assigned (`state0=`): on a path that
+// decided state0 to be true, `f(state0)` and `f(true)` are the same outcome.
+func SubstDecidedStates(outcome string, lits []Lit) string {
+	for _, l := range lits {
+		if l.Atom == "" || strings.ContainsAny(l.Atom, " (=.,\"[]<>!&|$@^*") || !(l.Atom[0] >= 'a' && l.Atom[0] <= 'z') {
+			continue // only bare identifiers name loop state
+		}
+		val := "false"
+		if l.Val {
+			val = "true"
+		}
+		var b strings.Builder
+		for i := 0; i < len(outcome); {
+			if strings.HasPrefix(outcome[i:], l.Atom) {
+				j := i + len(l.Atom)
+				prevOK := i == 0 || !isWordByte(outcome[i-1])
+				nextOK := j >= len(outcome) || (!isWordByte(outcome[j]) && outcome[j] != '=')
+				if prevOK && nextOK {
+					b.WriteString(val)
+					i = j
+					continue
+				}
+			}
+			b.WriteByte(outcome[i])
+			i++
+		}
+		outcome = b.String()
+	}
+	return outcome
+}
+
+func isWordByte(c byte) bool {
+	return c == '_' || (c >= '0' && c <= '9') || (c >= 'a' && c <= 'z') || (c >= 'A' && c <= 'Z')
 }
 
 // splitEqConst splits an atom `lhs == "const"`.
@@ -515,6 +622,7 @@ func CheckDecisionList(r *Report, rule, fnKey string, paths []DecisionPath, atom
 		}
 	}
 	reached := map[string]int{}
+	reachedRule := map[string]int{}
 	type group struct {
 		why string
 		pos string
@@ -534,12 +642,13 @@ func CheckDecisionList(r *Report, rule, fnKey string, paths []DecisionPath, atom
 				}
 			}
 		}
-		want := ""
+		want, wantRule := "", ""
 		undecided := ""
 		for _, sr := range spec.Rules {
 			v := sr.Guard.eval(env)
 			if v == 1 {
-				want = sr.Outcome
+				want = SubstDecidedStates(sr.Outcome, p.Lits)
+				wantRule = sr.Name
 				break
 			}
 			if v == 0 {
@@ -557,6 +666,7 @@ func CheckDecisionList(r *Report, rule, fnKey string, paths []DecisionPath, atom
 			why = "the documented cascade decides " + want + " on this path but the code decides " + p.Outcome
 		default:
 			reached[p.Outcome]++
+			reachedRule[wantRule]++
 			o := r.Add(rule+"-path", fmt.Sprintf("%s path#%d -> %s", fnKey, i, p.Outcome), p.Pos, true, "agrees with the documented cascade")
 			if i < 3 {
 				o.Witness = []string{p.String()}
@@ -579,7 +689,11 @@ func CheckDecisionList(r *Report, rule, fnKey string, paths []DecisionPath, atom
 		r.Add(rule+"-path", gk, g.pos, false, fmt.Sprintf("%s [%d paths]", g.why, g.n), g.wit...)
 	}
 	for _, sr := range spec.Rules {
-		r.Add(rule+"-rule", fnKey+" rule "+sr.Name, "", reached[sr.Outcome] > 0,
-			fmt.Sprintf("%d agreeing paths end in %s", reached[sr.Outcome], sr.Outcome))
+		n := reachedRule[sr.Name]
+		if n == 0 {
+			n = reached[sr.Outcome]
+		}
+		r.Add(rule+"-rule", fnKey+" rule "+sr.Name, "", n > 0,
+			fmt.Sprintf("%d agreeing paths end in %s", n, sr.Outcome))
 	}
 }
